@@ -124,27 +124,21 @@ def user_blocks(rng, tree, density=0.7, marker=True):
 
 
 def old_spec(outdir, names):
-    """What the model is told about the previous content of each name (text-mode readability decided here)."""
+    """The raw previous content of each generated name that exists as a file: [[name, bytes], ...].
+    Readability (strict UTF-8) is decided by the MODEL (Preserve.classify / utf8_valid), not here."""
     spec = []
     for n in names:
         p = os.path.join(outdir, n)
-        if not os.path.isfile(p):
-            spec.append([n, "M", b""])
-            continue
-        with open(p, "rb") as f:
-            b = f.read()
-        try:
-            b.decode("utf-8")
-            spec.append([n, "R", b])
-        except UnicodeDecodeError:
-            spec.append([n, "U", b""])
+        if os.path.isfile(p):
+            with open(p, "rb") as f:
+                spec.append([n, f.read()])
     return spec
 
 
 def model_regen(km, outdir, old, fresh):
-    """The Coq model's regeneration: ({name: bytes written}, returned list)."""
+    """The Coq model's regeneration from the raw directory content: ({name: bytes written}, returned list)."""
     fr = [[n, [l.encode("utf-8", "surrogateescape") for l in ls]] for n, ls in fresh.items()]
-    written, returned = km.call("regen", outdir, old, fr)
+    written, returned = km.call("regen_dir", outdir, old, fr)
     return OrderedDict((n.decode(), c) for n, c in written), [r.decode() for r in returned]
 
 
